@@ -55,6 +55,24 @@ pub fn classify_encoded(bytes: &[u8], opts: &EncOpts, out: &mut Outcome) {
                         if s.order > 12 {
                             out.label("lpc>12");
                         }
+                        if s.order >= 25 {
+                            out.label("lpc>=25");
+                        }
+                        out.label(match s.lpc_precision {
+                            0..=7 => "lpc-precision<=7",
+                            8..=13 => "lpc-precision:8-13",
+                            14 => "lpc-precision:14",
+                            _ => "lpc-precision:15",
+                        });
+                        out.label(match s.lpc_shift {
+                            0 => "lpc-shift:0",
+                            1..=7 => "lpc-shift:1-7",
+                            8..=13 => "lpc-shift:8-13",
+                            _ => "lpc-shift>=14",
+                        });
+                        if f.bps + (f.chan_code >= 8) as u8 > 32 {
+                            out.label("lpc-on-33-bit-side");
+                        }
                     }
                     _ => {}
                 }
@@ -255,6 +273,23 @@ pub fn enc_case_strategy(large: bool, max_blocks: u32) -> BoxedStrategy<EncCase>
         .boxed()
 }
 
+/// Music-like cases: tonal/resonant PCM (mid/side-friendly stereo), block sizes 64..4608, LPC on.
+pub fn tonal_case_strategy() -> BoxedStrategy<EncCase> {
+    let block = prop_oneof![
+        5 => proptest::sample::select(&[192u16, 256, 512, 576, 1024, 1152, 2048, 2304, 4096, 4608][..]),
+        2 => 64u16..=4608,
+    ];
+    let lpc = prop_oneof![1 => Just(None), 2 => Just(Some(8u8)), 2 => Just(Some(12u8)), 2 => Just(Some(32u8)), 3 => (1u8..=32).prop_map(Some)];
+    (block, lpc, 0u32..=8, prop_oneof![4 => Just(true), 1 => Just(false)], any::<bool>(), opts::window_strategy(), any::<bool>(), front_strategy(), chunks_strategy())
+        .prop_flat_map(|(block_size, max_lpc, max_part, mid_side, fast_corr, window, declare_total, front, chunks)| {
+            let o = EncOpts { block_size, max_lpc, max_part, mid_side, fast_corr, window, declare_total, ..EncOpts::small(block_size) };
+            let bs = block_size as u32;
+            let frames = prop_oneof![3 => Just(bs), 2 => (bs / 2).max(1)..=bs, 2 => bs..=2 * bs, 1 => 1u32..=bs].boxed();
+            pcm::tonal_recipe_strategy(frames).prop_map(move |recipe| EncCase { recipe, opts: o.clone(), front, chunks: chunks.clone() })
+        })
+        .boxed()
+}
+
 // ---------------------------------------------------------------------------------------------
 // exhaustive tiny vectors
 
@@ -398,7 +433,7 @@ pub fn shape_recipe(shape: usize, len: u32, bps: u8) -> Recipe {
         38 => (vec![k(Kind::Noise { amp: full }, 0), k(Kind::Noise { amp: full }, 0)], 39),
         _ => (vec![k(Kind::Square { run: 1 }, 0), k(Kind::Square { run: 2 }, 0)], 40),
     };
-    Recipe { bps, rate: 44100, frames: len, seed: seed * 7919 + len as u64, chans, seg: 0 }
+    Recipe { bps, rate: 44100, frames: len, seed: seed * 7919 + len as u64, chans, seg: 0, ms_mix: 0 }
 }
 
 pub fn shortlen_case(i: u64, max_len: u64) -> EncCase {
@@ -439,7 +474,7 @@ pub fn run(ctx: &Ctx) {
     ctx.assume("samples fit the declared bit depth; options come from the documented ranges");
     let t = ctx.tier;
     let all = Roundtrip { name: "roundtrip", readers: &READERS };
-    ctx.regress_named(&all, &["shortlen-grid", "roundtrip-large"]);
+    ctx.regress_named(&all, &["shortlen-grid", "roundtrip-large", "roundtrip-tonal"]);
     ctx.regress(&Tiny);
 
     // (a) exhaustive tiny vectors
@@ -525,6 +560,16 @@ pub fn run(ctx: &Ctx) {
         (Tier::Thorough, true) => 12_000,
     };
     ctx.search(&large, n_large, || enc_case_strategy(true, 2));
+
+    // (e) music-like material: LPC subframes of every order, mid/side frames
+    let tonal = Roundtrip { name: "roundtrip-tonal", readers: &[ReaderKind::Sample, ReaderKind::ByteLE] };
+    let n_tonal = match (t, checked) {
+        (Tier::Quick, false) => 6_000,
+        (Tier::Quick, true) => 1_500,
+        (Tier::Thorough, false) => 300_000,
+        (Tier::Thorough, true) => 60_000,
+    };
+    ctx.search(&tonal, n_tonal, tonal_case_strategy);
 }
 
 pub fn engines() -> Vec<Box<dyn crate::engine::DynEngine>> {
@@ -532,6 +577,7 @@ pub fn engines() -> Vec<Box<dyn crate::engine::DynEngine>> {
         Box::new(Roundtrip { name: "roundtrip", readers: &READERS }),
         Box::new(Roundtrip { name: "shortlen-grid", readers: &READERS }),
         Box::new(Roundtrip { name: "roundtrip-large", readers: &READERS }),
+        Box::new(Roundtrip { name: "roundtrip-tonal", readers: &READERS }),
         Box::new(Tiny),
     ]
 }
